@@ -31,11 +31,6 @@ ToSet(s) == { s[i] : i \in 1..Len(s) }
 ToksAgree(obs, st) ==
     \A i \in 1..Len(obs) : obs[i].var \in DOMAIN st.toks /\ ToSet(obs[i].names) = st.toks[obs[i].var]
 
-RECURSIVE ParseAllOp(_, _, _)
-ParseAllOp(st, decl, i) ==
-    IF i > Len(decl) THEN EndParseOp(st)
-    ELSE ParseAllOp(ParseLineOp(st, decl[i].var, decl[i].def, decl[i].ic), decl, i + 1)
-
 JudgeParse(e, s) ==
     IF e.endo # s.endo \/ e.lagged # s.lagged \/ e.exo # s.exo \/ ~ToksAgree(e.toks, s)
     THEN Drift("parse") ELSE Ok
@@ -115,7 +110,9 @@ TraceNext ==
     /\ l' = l + 1
     /\ LET e == Log[l] IN
        \/ /\ e.ev = "Parse"
-          /\ LET s == ParseAllOp(InitSt, e.decl, 1) IN
+          \* the first Parse of a trace is the first block, a later one a second block on the same objects;
+          \* either way ParseString starts from nothing (ReparseOp = this + the history fields)
+          /\ LET s == [ParseAllOp(InitSt, e.decl, 1) EXCEPT !.blk = IF phase = "parse" THEN 1 ELSE 2] IN
                 Set(s) /\ verdict' = Worse(verdict, JudgeParse(e, s))
        \/ /\ e.ev = "Find"
           /\ LET s == FindAllOp([St EXCEPT !.phase = IF @ = "error" THEN @ ELSE "find"]) IN
